@@ -13,6 +13,8 @@ import Mathlib.Tactic.NormNum
 import Mathlib.Algebra.Order.Field.Rat
 import Mathlib.LinearAlgebra.Matrix.NonsingularInverse
 
+set_option linter.unusedSectionVars false
+
 namespace MiciVerif.C04
 open Matrix MiciVerif.Constrained
 
@@ -661,6 +663,200 @@ theorem constrained_step_post (S : StepSys K n c) (hinv : InvCorrect S.toOracles
     · omega
     · exact hm
 
+private theorem retract_not_unbound (S : StepSys K n c) (C : StepCfg K) (hmax : 0 < C.maxIters) (dt : K)
+    (pos mom : Vec K n) : retract S C dt pos mom ≠ .error .unboundLocal := by
+  unfold retract
+  cases hf : S.h2flow dt (pos, mom) with
+  | error e => simp
+  | ok r =>
+    obtain ⟨pos1, mom1⟩ := r
+    simp only
+    rcases solve_ok_or_convergenceError C.kind S.toOracles C.tol C.maxIters C.maxLs hmax dt pos1 mom1 pos with
+      ⟨p2, m2, mu, i, h⟩ | ⟨r, i, p, h⟩ <;> simp [h]
+
+private theorem stepBLoop_not_unbound (S : StepSys K n c) (C : StepCfg K) (hmax : 0 < C.maxIters) (dt : K) :
+    ∀ (k : Nat) (pos mom : Vec K n), stepBLoop S C dt k pos mom ≠ .error .unboundLocal := by
+  intro k
+  induction k with
+  | zero => intro pos mom; simp [stepBLoop]
+  | succ k ih =>
+    intro pos mom h
+    unfold stepBLoop at h
+    cases hr : retract S C dt pos mom with
+    | error e =>
+      simp only [hr, Except.error.injEq] at h
+      exact retract_not_unbound S C hmax dt pos mom (by rw [hr, h])
+    | ok r =>
+    obtain ⟨pos1, mom1⟩ := r
+    simp only [hr] at h
+    cases hd : (if k = 0 then (S.dh1 pos1).map (fun _ => ()) else Except.ok ()) with
+    | error e => simp [hd] at h
+    | ok u =>
+    simp only [hd] at h
+    cases hp : projectCot S pos1 mom1 with
+    | error e => simp [hp] at h
+    | ok mom2 =>
+    simp only [hp] at h
+    cases hb : retract S C (-dt) pos1 mom2 with
+    | error e =>
+      simp only [hb, Except.error.injEq] at h
+      exact retract_not_unbound S C hmax (-dt) pos1 mom2 (by rw [hb, h])
+    | ok rb =>
+    obtain ⟨posBack, momBack⟩ := rb
+    simp only [hb] at h
+    split_ifs at h with hrev
+    · simp at h
+    · exact ih _ _ h
+
+/-- **Failures of a step are contained.** With `max_iters ≥ 1` a constrained leapfrog step
+either returns or fails with `ConvergenceError`, `NonReversibleStepError` or the
+`IntegratorError` into which `Integrator.step` converts `ValueError`/`LinAlgError` — all
+subclasses of `IntegratorError`; nothing else escapes. -/
+theorem step_failure_contained (S : StepSys K n c) (C : StepCfg K) (hmax : 0 < C.maxIters)
+    (nInner : Nat) (t : K) (pos mom : Vec K n) :
+    step S C nInner t pos mom ≠ .error .unboundLocal := by
+  unfold step
+  cases ha : stepA S (t * (1 / 2)) pos mom with
+  | error e => simp
+  | ok r1 =>
+  obtain ⟨pos1, mom1⟩ := r1
+  simp only
+  cases hb : stepBLoop S C (t / (nInner : K)) nInner pos1 mom1 with
+  | error e =>
+    simp only [ne_eq, StepOutcome.error.injEq]
+    intro h
+    exact stepBLoop_not_unbound S C hmax _ _ _ _ (by rw [hb, h])
+  | ok r2 =>
+  obtain ⟨pos2, mom2⟩ := r2
+  simp only
+  cases hc : stepA S (t * (1 / 2)) pos2 mom2 with
+  | error e => simp
+  | ok r3 => simp
+
 end Solvers
+
+/-! ### non-vacuity of the solver theorems -/
+
+/-- A 1-dimensional instance: constraint `c(q) = q`, Jacobian `1`, flow derivative `(1, 1)`. -/
+private def exO : Oracles ℚ 1 1 where
+  constr := fun q => .ok q
+  jacob := fun _ => .ok (mat 1)
+  flowD := fun _ _ => .ok (mat 1, mat 1)
+  inv := fun A => if A.fn * A.fn = 1 then .ok A else .error .linAlgError
+  normC := fun v => |v.fn 0|
+  normP := fun v => |v.fn 0|
+
+private def exT : Tol ℚ := ⟨1/2, 1/2, 10⟩
+
+private theorem vec_eq_iff {n : Nat} (f g : Fin n → ℚ) : vec f = vec g ↔ f = g :=
+  ⟨fun h => by have := congrArg Vec.fn h; simpa using this, fun h => by rw [h]⟩
+
+private theorem ex_h1 : ¬ ((1 : ℚ) < 2⁻¹) := by norm_num
+private theorem ex_h2 : ¬ ((10 : ℚ) < 0) := by norm_num
+
+/-- non-vacuity of `quasi_newton_post`: a solve that needs one position update. -/
+example : ∃ pos' mom' mu i, solveQuasiNewton exO exT 3 1 (vec ![1]) (vec ![0]) (vec ![0]) = .ok pos' mom' mu i ∧ 0 < i := by
+  refine ⟨vec ![0], vec ![-1], vec ![1], 1, ?_, by decide⟩
+  simp [solveQuasiNewton, exO, exT, qnLoop, finish, innerProduct, deltaMu, sgn, ex_h1, ex_h2, vec_eq_iff]
+  ext i; fin_cases i; simp
+
+/-- non-vacuity of `newton_post` (negative time step: the momentum correction changes sign). -/
+example : ∃ pos' mom' mu i, solveNewton exO exT 3 (-1) (vec ![1]) (vec ![0]) (vec ![0]) = .ok pos' mom' mu i ∧ 0 < i := by
+  refine ⟨vec ![0], vec ![1], vec ![1], 1, ?_, by decide⟩
+  simp [solveNewton, exO, exT, newtonLoop, finish, innerProduct, deltaMu, sgn, ex_h1, ex_h2, vec_eq_iff]
+  constructor
+  · ext i; fin_cases i; simp
+  · norm_num [Matrix.vecHead]
+
+/-- non-vacuity of `line_search_post` with `max_line_search_iters = 0`: every inner search is
+"exhausted", i.e. the `for … else` branch sets the position. -/
+example : ∃ pos' mom' mu i, solveNewtonLineSearch exO exT 3 0 1 (vec ![1]) (vec ![0]) (vec ![0]) = .ok pos' mom' mu i ∧ 0 < i := by
+  refine ⟨vec ![0], vec ![-1], vec ![1], 2, ?_, by decide⟩
+  simp [solveNewtonLineSearch, exO, exT, lsLoop, lineSearch, finish, innerProduct, deltaMu, sgn, ex_h1, ex_h2]
+
+/-- `InvCorrect` is satisfiable (a checking inverse oracle). -/
+example : InvCorrect exO := by
+  intro A X h
+  simp only [exO] at h
+  split_ifs at h with hc
+  cases h
+  exact hc
+
+
+
+/-! ### what the `for … else` repair bought: the pre-repair inner loop is *not* consistent -/
+
+/-- The inner loop as it was before the repair (no `else` branch): on exhaustion the position
+is left where the last trial put it, i.e. at *twice* the returned step size. -/
+def lineSearchUnfixed {K : Type*} [Field K] [LinearOrder K] {n c : Nat} (O : Oracles K n c) (error : K)
+    (posCurr δ : Vec K n) : Nat → K → Vec K n → Except Fault (Vec K n × K)
+  | 0, α, pos => .ok (pos, α)
+  | k + 1, α, _ =>
+    let pos := vec (posCurr.fn + α • δ.fn)
+    match O.constr pos with
+    | .error e => .error e
+    | .ok cv =>
+      if O.normC cv < error then .ok (pos, α) else lineSearchUnfixed O error posCurr δ k (α * (1 / 2)) pos
+
+/-- Counterpart of `lineSearch_consistent` for the pre-repair loop: a concrete run
+(`c(q) = q`, `pos_curr = 1`, `delta_pos = -4`, one trial) returns step size `½` with the position
+at `1 + 1·(-4) = -3 ≠ 1 + ½·(-4)` — the multipliers would be updated with half the step the
+position took.  (`reverts/C04-line-search-mu-pos.diff` re-introduces exactly this.) -/
+theorem lineSearchUnfixed_inconsistent :
+    ∃ (pos' : Vec ℚ 1) (α' : ℚ),
+      lineSearchUnfixed exO 1 (vec ![1]) (vec ![-4]) 1 1 (vec ![1]) = .ok (pos', α') ∧
+      pos'.fn ≠ (vec ![1] : Vec ℚ 1).fn + α' • (vec ![-4] : Vec ℚ 1).fn := by
+  refine ⟨vec ![-3], 1 / 2, ?_, ?_⟩
+  · have h : ¬ (|(1 : ℚ) + -4| < 1) := by norm_num [abs_lt]
+    simp [lineSearchUnfixed, exO, h, vec_eq_iff]
+    norm_num
+  · intro h
+    have := congrFun h 0
+    simp at this
+    norm_num at this
+
+/-- … while the repaired loop on the same input is consistent (instance of
+`lineSearch_consistent`): it returns the position `1 + ½·(-4) = -1`. -/
+example : lineSearch exO 1 (vec ![1]) (vec ![-4]) 1 1 = .ok (vec ![-1], 1 / 2) := by
+  have h : ¬ (|(1 : ℚ) + -4| < 1) := by norm_num [abs_lt]
+  simp [lineSearch, exO, h, vec_eq_iff]
+  norm_num
+
+private def exInv (A : Mat ℚ 1 1) : Except Fault (Mat ℚ 1 1) :=
+  if A.fn 0 0 = 1 then .ok A else .error .linAlgError
+
+/-- the point `q = 0` in ℚ¹ (one constraint `c(q) = q`), identity metric, ℓ(q) = ½q² -/
+private def exS : StepSys ℚ 1 1 where
+  constr := fun q => .ok q
+  jacob := fun _ => .ok (mat 1)
+  flowD := fun _ a => .ok (mat (a • 1), mat 1)
+  inv := exInv
+  normC := fun v => |v.fn 0|
+  normP := fun v => |v.fn 0|
+  N := mat 1
+  dh1 := fun q => .ok q
+  h2flow := fun dt qp => .ok (vec (qp.1.fn + dt • qp.2.fn), qp.2)
+
+private def exC : StepCfg ℚ := ⟨.newton, ⟨1/2, 1/2, 10⟩, 3, 0, 1/2⟩
+
+private def isOk {K : Type} {n : Nat} : StepOutcome K n → Prop
+  | .ok _ _ => True
+  | .error _ => False
+
+/-- hypotheses of `constrained_step_post` / `projectCot_post`: a checking inverse oracle … -/
+example : InvCorrect exS.toOracles := by
+  intro A X h
+  simp only [exS, exInv] at h
+  split_ifs at h with hc
+  cases h
+  ext i j
+  fin_cases i; fin_cases j
+  simp [Matrix.mul_apply, hc]
+
+/-- … and a step that returns -/
+example : isOk (step exS exC 1 1 (vec ![0]) (vec ![1])) := by
+  simp [step, stepA, stepBLoop, retract, projectCot, solve, solveNewton, newtonLoop, finish, exS, exC, exInv,
+    innerProduct, deltaMu, sgn, project, isOk, Except.map, show ¬ ((10 : ℚ) < 0) by norm_num,
+    show ¬ ((2⁻¹ : ℚ) < 0) by norm_num]
 
 end MiciVerif.C04
